@@ -62,11 +62,13 @@ func (c Command) ExecuteIQ(ctx context.Context, iq stanza.IQ, payload xml.TokenR
 	if err != nil {
 		return resp, nil, err
 	}
+	// Remember the response in a variable of its own: the error returns below set
+	// the named result to nil before this deferred function runs.
+	sent := respPayload
 	defer func() {
-		respPayload := respPayload
-		if err != nil && respPayload != nil {
+		if err != nil && sent != nil {
 			/* #nosec */
-			respPayload.Close()
+			sent.Close()
 		}
 	}()
 	var t xml.Token
